@@ -615,10 +615,39 @@ def _corpus(tier: str):
     ]
     # header-less pickles whose very first opcode takes no argument (offset 0 is a position like any other)
     hand += [(f"header-less {nm} at offset 0", code + b".") for nm, code in (("NEWTRUE", b"\x88"), ("NEWFALSE", b"\x89"), ("EMPTY_SET", b"\x8f"), ("EMPTY_TUPLE", b")"), ("EMPTY_LIST", b"]"), ("EMPTY_DICT", b"}"), ("NONE", b"N"))]
+    # memo slots: MEMOIZE always writes slot len(memo), even when an explicit PUT used that index before
+    hand += [
+        ("MEMOIZE overwriting the slot an explicit BINPUT used", b"\x80\x04]q\x01K\x05\x94h\x01\x86\x86."),
+        ("callee fetched from a slot MEMOIZE overwrote (print -> os.system)", b"\x80\x04cbuiltins\nprint\nq\x01cos\nsystem\n\x9400h\x01(S'id'\ntR."),
+        ("sparse memo: a lone BINPUT 2", b"\x80\x02]q\x02K\x01a."),
+        ("INST without arguments", b"(icollections\nOrderedDict\n."),
+        ("OBJ with two arguments", b"(cdecimal\nDecimal\nS'1.5'\nK\x02o."),
+        ("NEWOBJ_EX with keyword names that are a reserved word / not NFKC-normal / ordinary", b"\x80\x04ccollections\nOrderedDict\n)}(\x8c\x05classK\x01\x8c\x06\xef\xac\x81eldK\x02\x8c\x01xK\x03u\x92."),
+        ("os.system by INST (protocol 0)", b"(S'id'\nios\nsystem\n."),
+    ]
+    # extension codes (copyreg): registered on the specification's side so that the reference reader resolves them
+    _register_extensions()
+    hand += [
+        ("EXT1 -> collections.OrderedDict", b"\x80\x02\x82\x11)R."),
+        ("EXT2 -> os.system, called", b"\x80\x02\x83\x34\x12(S'id'\ntR."),
+        ("EXT4 -> collections.OrderedDict", b"\x80\x02\x84\x78\x56\x34\x12)R."),
+    ]
     # an argument-carrying opcode whose encoding exceeds 1 MiB
     hand.append(("BINBYTES of 1.2 MiB (protocol 3)", pickle.dumps(b"\x07" * (1200 * 1024), 3)))
     out += hand
     return out
+
+
+def _register_extensions():
+    import copyreg
+
+    for (m, nm, code) in (("collections", "OrderedDict", 0x11), ("os", "system", 0x1234), ("collections", "OrderedDict", 0x12345678)):
+        if code not in copyreg._inverted_registry:
+            try:
+                copyreg.add_extension(m, nm, code)
+            except ValueError:
+                # (module, name) already has a code: the registry maps one key to one code; enter the inverse by hand
+                copyreg._inverted_registry[code] = (m, nm)
 
 
 def _fresh_objeval(repo: Repo):
